@@ -469,11 +469,108 @@ static void run_dead(seqx::Runner &R, int how) {
     R.end(true);
 }
 
+// ---------------------------------------------------------------------------------------------- emitting from inside a coroutine
+// the documented generator form: a coroutine does `co_await collector(value)`; awaiting the returned suspend point hands the
+// execution to the listeners, so every listener has taken the value before the emitting coroutine continues (and changes or
+// destroys the object it passed by reference)
+struct EmitCtx {
+    std::vector<int> rec[2];
+    int nl = 0;
+    int received_before_continue_bad = 0;
+};
+static cocls::async<void> emit_listener(Sig::emitter em, EmitCtx &x, int k) {
+    for (;;) {
+        try {
+            Val &v = co_await em;
+            x.rec[k].push_back(v.get());
+        } catch (const cocls::await_canceled_exception &) {
+            x.rec[k].push_back(-1);
+            break;
+        }
+    }
+}
+static cocls::async<void> emitting_coroutine(Sig::collector col, EmitCtx &x, std::vector<int> kinds) {
+    long next = 1;
+    for (int kind : kinds) {
+        long val = next++;
+        switch (kind) {
+            case 0: co_await col(val); break;  // constructing overload
+            case 1: {
+                Val v(val);
+                co_await col(std::move(v));
+                break;
+            }
+            case 2: {
+                Val v(val);
+                co_await col(v);  // non-const lvalue: listeners get a reference to v
+                v.v = -5;         // ... which the emitter is free to change afterwards
+                v.chk = ~-5;
+                break;
+            }
+            default: {
+                const Val v(val);
+                co_await col(v);
+                break;
+            }
+        }
+        for (int k = 0; k < x.nl; k++)
+            if ((long)x.rec[k].size() != val) x.received_before_continue_bad++;
+    }
+}
+static const char *emit_kind_names[] = {"value", "rvalue", "lvalue", "const-lvalue"};
+static void run_emit(seqx::Runner &R, int nl, const std::vector<int> &kinds) {
+    std::string nm = "emit-from-coroutine;listeners=" + std::to_string(nl) + ";calls=";
+    for (size_t i = 0; i < kinds.size(); i++) nm += std::string(i ? "," : "") + emit_kind_names[kinds[i]];
+    R.begin(nm);
+    {
+        EmitCtx x;
+        x.nl = nl;
+        {
+            Sig sig;
+            for (int k = 0; k < nl; k++) emit_listener(sig.get_emitter(), x, k).detach();
+            emitting_coroutine(sig.get_collector(), x, kinds).detach();
+            R.step(kinds.size());
+        }  // last handle gone: listeners are cancelled
+        if (x.received_before_continue_bad)
+            R.fail("signal/listener-not-served-before-emitter-continues", "after `co_await collector(x)` returned, %d listener(s) had not received that value yet", x.received_before_continue_bad);
+        for (int k = 0; k < nl && !R.case_fail; k++) {
+            std::vector<int> want;
+            for (size_t i = 0; i < kinds.size(); i++) want.push_back((int)i + 1);
+            want.push_back(-1);
+            if (x.rec[k] != want) {
+                std::string got;
+                for (int v : x.rec[k]) got += std::to_string(v) + " ";
+                R.fail("signal/wrong-sequence", "listener %d of a coroutine emitter received [ %s], expected 1..%zu then the cancellation", k, got.c_str(), kinds.size());
+            }
+        }
+        R.outcome(seqx::hash_str(nm));
+        R.state(seqx::hash_str(nm));
+    }
+    R.end(true);
+}
+static void emit_enum(seqx::Runner &R, const std::string &want) {
+    for (int nl = 1; nl <= 2; nl++)
+        for (int a = 0; a < 4; a++)
+            for (int b = -1; b < 4; b++)
+                for (int c = -1; c < (b < 0 ? 0 : 4); c++) {
+                    std::vector<int> kinds{a};
+                    if (b >= 0) kinds.push_back(b);
+                    if (c >= 0) kinds.push_back(c);
+                    if (!want.empty()) {
+                        std::string nm = "emit-from-coroutine;listeners=" + std::to_string(nl) + ";calls=";
+                        for (size_t i = 0; i < kinds.size(); i++) nm += std::string(i ? "," : "") + emit_kind_names[kinds[i]];
+                        if (nm == want) run_emit(R, nl, kinds);
+                    } else if (R.next_case())
+                        run_emit(R, nl, kinds);
+                }
+}
+
 }  // namespace
 
 void seqx_run(seqx::Runner &R, const std::string &tier) {
     seq_warmup();
     if (R.next_case()) run_void(R);
+    emit_enum(R, "");
     for (int how = 0; how < 2; how++)
         if (R.next_case()) run_dead(R, how);
     Model m;
@@ -484,6 +581,10 @@ void seqx_run(seqx::Runner &R, const std::string &tier) {
 void seqx_replay(seqx::Runner &R, const std::string &c) {
     seq_warmup();
     R.next_case();
+    if (c.rfind("emit-from-coroutine;", 0) == 0) {
+        emit_enum(R, c);
+        return;
+    }
     if (c == "void-signal") {
         run_void(R);
         return;
